@@ -20,7 +20,7 @@ ToMsg(j) == IF j.k = "empty" THEN [k |-> "empty", a |-> j.a, lo |-> j.lo, hi |->
 (* the payload of a message is exactly the recorded changes of that version *)
 PayloadOk(j) == IF j.k = "empty" THEN TRUE ELSE \A i \in 1..Len(j.chs) :
     LET c == j.chs[i] IN
-    /\ j.v <= Len(txlog'[j.a]) /\ c.seq <= Len(txlog'[j.a][j.v]) - 1
+    /\ j.v <= Len(txlog'[j.a]) /\ c.seq <= Len(txlog'[j.a][j.v]) - 1 /\ txlog'[j.a][j.v][c.seq + 1].key # 0
     /\ LET t == txlog'[j.a][j.v][c.seq + 1] IN t.key = c.key /\ t.cv = c.cv /\ t.val = c.val
     /\ c.cid = "text" /\ c.cl = 1 /\ c.site = j.a /\ c.dbv = j.v
 CreatedSet(ev) == {ToMsg(ev.created[i]) : i \in 1..Len(ev.created)}
